@@ -1,6 +1,7 @@
 """C18 HTTP Datagrams carry their stream ID and payload unchanged (structural clauses)."""
 from engine import flow as fl, ru, paths as pa
 from rules import shared
+from rules import C16 as _c16
 
 EXPLANATION = (
     "Static def-use and path analysis of h3-datagram's Datagram::{encode,decode}, DatagramSender::send_datagram "
@@ -10,7 +11,7 @@ EXPLANATION = (
     "StreamId::try_from, keeps the rest of the buffer as payload, and both failures carry H3_DATAGRAM_ERROR; "
     "(c) the reader reports decode failures connection-level. Decides these structural clauses, not the value-level "
     "round trip nor the EncodedDatagram chunk/advance arithmetic.")
-RULES = "C18-a encode header flow; C18-b inverse constants + error code; C18-c reader error routing; C18-d sender uses its own stream id; C18-e header/payload cursor of the encoded buffer (extracted-expression evaluation over small states)"
+RULES = "C18-a encode header flow; C18-b inverse constants + error code; C18-c reader error routing; C18-d sender uses its own stream id; C18-e header/payload cursor of the encoded buffer (extracted-expression evaluation over small states); shared: varint form tables under C18-a"
 
 DG = "h3_datagram::datagram::Datagram"
 ENC = "h3_datagram::datagram::EncodedDatagram"
@@ -18,6 +19,8 @@ VARINT = "h3::proto::varint::VarInt"
 
 
 def run(ctx):
+    # the quarter stream id in front of every datagram is a varint: size() and encode() must agree with RFC 9000 (shared with C16)
+    _c16.varint_form_tables(ctx, "C18-a")
     prog = ctx.prog
     # ---------------- C18-a
     enc = ru.need(ctx, "C18-a", DG + "::encode")
